@@ -473,20 +473,33 @@ def completeDo (w : World) (m : Msg) : World × List Event :=
     ({ w with pending := w.pending.filter (·.tok != m.tok), a := doFinish w.a m.tok }, [.ret m.tok (some m)])
   else (w, [])
 
+/-- … for every message handed to A's application by one `Handle` call, in order -/
+def completeAll : World → List Msg → World × List Event
+  | w, [] => (w, [])
+  | w, m :: ms => ((completeAll (completeDo w m).1 ms).1, (completeDo w m).2 ++ (completeAll (completeDo w m).1 ms).2)
+
+/-- the application of a side: A's never answers what it is handed, B's is `appB` -/
+def World.appOf (w : World) : Side → App
+  | .A => fun _ => none
+  | .B => w.appB
+
+/-- the pending calls that the messages handed to the application of side `s` complete (only A has callers) -/
+def World.afterDeliveries (w : World) (s : Side) (ds : List Msg) : World × List Event :=
+  match s with
+  | .A => completeAll w ds
+  | .B => (w, [])
+
+def World.enqueue (w : World) (p : Packet) : World := { w with queue := w.queue ++ [p] }
+
 /-- the network hands `p.msg` to `p.dst`: one `Handle` call, its reply goes in flight -/
 def World.recv (w : World) (p : Packet) : World × List Event :=
-  let app : App := match p.dst with | .A => (fun _ => none) | .B => w.appB
-  let (ep', out) := handle (w.ep p.dst) w.now p.msg app
-  let w1 := w.setEp p.dst ep'
-  let evD := out.delivered.map (Event.deliver p.dst)
-  let (w2, evR) := match p.dst with
-    | .A => out.delivered.foldl (fun (acc : World × List Event) m => let (x, e) := completeDo acc.1 m; (x, acc.2 ++ e)) (w1, [])
-    | .B => (w1, [])
-  let evE := if out.err then [Event.errcb p.dst] else []
-  match out.reply with
-  | some m => ({ w2 with queue := w2.queue ++ [⟨p.dst.other, onWire m⟩] },
-               [Event.arrive p.dst p.msg] ++ evD ++ evR ++ evE ++ [Event.wire p.dst (onWire m)])
-  | none => (w2, [Event.arrive p.dst p.msg] ++ evD ++ evR ++ evE)
+  let res := handle (w.ep p.dst) w.now p.msg (w.appOf p.dst)
+  let fin := (w.setEp p.dst res.1).afterDeliveries p.dst res.2.delivered
+  let evs := [Event.arrive p.dst p.msg] ++ res.2.delivered.map (Event.deliver p.dst) ++ fin.2 ++
+    (if res.2.err then [Event.errcb p.dst] else [])
+  match res.2.reply with
+  | some m => (fin.1.enqueue ⟨p.dst.other, onWire m⟩, evs ++ [Event.wire p.dst (onWire m)])
+  | none => (fin.1, evs)
 
 def World.fault (w : World) : Fault → World × List Event
   | .deliver =>
@@ -535,5 +548,26 @@ def World.sleep (w : World) (d : Int) : World × List Event :=
    due.map (fun p => Event.ret p.tok none))
 
 def World.tick (w : World) (s : Side) : World := w.setEp s (sweep (w.ep s) w.now)
+
+/-- what can happen in the two-endpoint system: the relay decides about a message, the client's application starts a
+    request/response call or a one-way write, time passes, the caches of a side are swept -/
+inductive Op
+  | fault (f : Fault)
+  | doReq (r : Msg)
+  | writeReq (r : Msg)
+  | sleep (d : Int)
+  | tick (s : Side)
+
+def World.op (w : World) : Op → World × List Event
+  | .fault f => w.fault f
+  | .doReq r => w.startDo r
+  | .writeReq r => w.startWrite .A r
+  | .sleep d => w.sleep d
+  | .tick s => (w.tick s, [])
+
+/-- the system after a script of operations (every fault sequence is one), and everything that was observed -/
+def World.run : World → List Op → World × List Event
+  | w, [] => (w, [])
+  | w, o :: os => ((World.run (w.op o).1 os).1, (w.op o).2 ++ (World.run (w.op o).1 os).2)
 
 end CoapVerif.Model.Blockwise
